@@ -513,6 +513,51 @@ def minWidth (p : Page) : Nat :=
     | .emptyLine => m
     | e => max m (need (align p) ie.1 e + 2)) 0
 
+/-! ### A page rendered at an outer indentation: `Component.render(io, indentation)`
+
+`AbstractHelp.render(io, indentation)` hands the indentation to `BlockLayout.render`, which
+adds it to the alignment's text offset (`LabelAlignment.align(io, indentation)`) and to the
+indentation of every element (`element.render(io, self._indentations[i] + indentation)`): the
+paragraphs SEE the outer indentation and wrap to `width - 1 - indentation - ...`. -/
+
+/-- every element `k` columns further right -/
+def shift (k : Nat) (p : Page) : Page := p.map fun ie => (ie.1 + k, ie.2)
+
+/-- the visible text a page puts on a terminal `w` columns wide when rendered at indentation `k` -/
+def renderPageAt (wrap : Nat → Str → List Str) (w k : Nat) (p : Page) : Except Err Str :=
+  renderAll wrap w (align p + k) (shift k p)
+
+/-- `ApplicationHelp(app).render(io, k)` -/
+def renderApplicationHelpAt (wrap : Nat → Str → List Str) (w k : Nat) (app : HApp) : Except Err Str :=
+  if !formatOK app.help then .error (.other "KeyError")
+  else renderPageAt wrap w k (applicationHelp app)
+
+/-- `CommandHelp(cmd).render(io, k)` -/
+def renderCommandHelpAt (wrap : Nat → Str → List Str) (w k : Nat) (app : HApp) (x : Ctx) (c : HCmd) :
+    Except Err Str :=
+  if !formatOK c.help then .error (.other "KeyError")
+  else renderPageAt wrap w k (commandHelp app x c)
+
+/-- the `textwrap.wrap(text, width)` calls of a page rendered at indentation `k` -/
+def wrapCallsAt (w k : Nat) (p : Page) : List (Int × Str) :=
+  p.filterMap fun ie =>
+    match wrapText ie.2 with
+    | some (some t) => some ((w : Int) - 1 - (need (align p) ie.1 ie.2 + k : Nat), t)
+    | _ => none
+
+/-- **`widthOKAt`**: `widthOK` for a page rendered at indentation `k` - the terminal is at least as
+wide as the outer indentation plus the longest label plus its offset plus the margin of 2 -/
+def widthOKAt (w k : Nat) (p : Page) : Bool :=
+  p.all fun ie => match ie.2 with
+    | .emptyLine => true
+    | e => need (align p) ie.1 e + k + 2 ≤ w
+
+/-- the smallest terminal width `widthOKAt` accepts -/
+def minWidthAt (k : Nat) (p : Page) : Nat :=
+  p.foldl (fun m ie => match ie.2 with
+    | .emptyLine => m
+    | e => max m (need (align p) ie.1 e + k + 2)) 0
+
 /-! ## Which page a command line shows -/
 
 /-- the tree the resolver works on: enabled configurations only -/
